@@ -320,6 +320,7 @@ def make_logging_integration(base=None):
     [3,[ids]] process_removed_objects, [4] initialize_evaluation_dimension_wise, [5,x] calculate_operation_dimension_wise,
     [8,id,name] evaluate_area_for_error_estimates (benefit / parent estimates; must not touch any accumulator),
     [9,id,x] compute_subcell_with_interpolation of the cell scheme (x = integral*coefficient), [10] reset_result.
+    [12] ... [13] evaluate_final_combi on the live object (appended by mark_main_evaluation).
     ([11] reinit_new_objects is appended by the C05 driver: the container is not an object the operation sees.)"""
     import numpy as np
     from sparseSpACE.GridOperation import Integration
@@ -415,6 +416,17 @@ def mark_main_evaluation(cls):
                 return super().compute_solutions(areas, evaluation_array)
             finally:
                 self.operation.phase = prev
+
+        def evaluate_final_combi(self):
+            # [12] / [13] bracket a re-evaluation from scratch on THIS object (refinement.value = 0 is not visible to the operation)
+            ev = getattr(self.operation, 'events', None)
+            if ev is not None:
+                ev.append([12])
+            try:
+                return super().evaluate_final_combi()
+            finally:
+                if ev is not None:
+                    ev.append([13])
     Marked.__name__ = cls.__name__
     Marked.__qualname__ = cls.__qualname__
     return Marked
